@@ -36,7 +36,11 @@ func (r CharRecipe) n() *big.Int {
 	allowed.Add(r.allowedSet)
 	required := set.NewSet()
 	for _, req := range r.requiredSets {
-		required.Add(req.s)
+		// A required set that exclusion has emptied cannot be satisfied and
+		// is ignored by requireFilter; it must not zero the count either.
+		if req.size() > 0 {
+			required.Add(req.s)
+		}
 	}
 
 	return n(allowed, required, r.Length)
